@@ -66,4 +66,4 @@ impl SampleGenerator<f64> for ZXAyChip {
 
 #[cfg(kani)]
 #[path = "/verif/hooks/core/ay.rs"]
-mod verif_hooks;
+pub(crate) mod verif_hooks;
